@@ -54,5 +54,5 @@ pub fn fnv_add(h: u64, data: &[u8]) -> u64 {
     h
 }
 pub fn fnv_u64(h: u64, v: u64) -> u64 {
-    fnv_add(h, &v.to_le_bytes())
+    mix(mix(h) ^ v.wrapping_mul(0x9E3779B97F4A7C15))
 }
